@@ -797,13 +797,33 @@ def trace(a, *args, **kwargs):
 
 
 @implements(np.percentile)
-def percentile(a, *args, **kwargs):
-    return np.percentile._implementation(np.asarray(a), *args, **kwargs) * a.units
+def percentile(a, q, axis=None, out=None, *args, **kwargs):
+    res = np.percentile._implementation(
+        np.asarray(a),
+        q,
+        axis,
+        None if out is None else np.asarray(out),
+        *args,
+        **kwargs,
+    )
+    if getattr(out, "units", None) is not None:
+        out.units = a.units
+    return res * a.units
 
 
 @implements(np.quantile)
-def quantile(a, *args, **kwargs):
-    return np.quantile._implementation(np.asarray(a), *args, **kwargs) * a.units
+def quantile(a, q, axis=None, out=None, *args, **kwargs):
+    res = np.quantile._implementation(
+        np.asarray(a),
+        q,
+        axis,
+        None if out is None else np.asarray(out),
+        *args,
+        **kwargs,
+    )
+    if getattr(out, "units", None) is not None:
+        out.units = a.units
+    return res * a.units
 
 
 @implements(np.nanpercentile)
